@@ -35,6 +35,12 @@ def items(tier, seed):
         for form2 in ("SetImage", "SetDomain"):
             out.append({"k": "curve2", "form": form, "form2": form2})
     out.append({"k": "curve_ctor"})
+    # nested containers (a list of points, a 2-D numpy array): the LENGTH is the number of rows, not the number of numbers
+    for shape in ("tuples", "numpy2d"):
+        for rows in (2, 3):
+            for other in (rows, rows * 2, rows + 1):
+                for via in ("ctor", "SetDomain", "SetImage", "domain=", "image="):
+                    out.append({"k": "curve_nested", "shape": shape, "rows": rows, "other": other, "via": via})
     hi = 5 if tier == "quick" else 7
     for d in range(-1, hi + 1):
         for n in range(0, hi + 1):
@@ -72,6 +78,8 @@ def inputs(cfg):
         return {"L": "int"}
     if k in ("curve", "curve2", "curve_ctor"):
         return {"n": "int", "k": "int", "j": "int"}
+    if k == "curve_nested":
+        return {"x%d" % i: "real" for i in range(4)}
     n = max(cfg.get("n", 0), cfg.get("d", 0), 1) + 1
     return {"x%d" % i: "real" for i in range(n)} | {"y": "real"}
 
@@ -125,6 +133,25 @@ def run(cfg, V):
         except ValueError as e:
             return {"rejected": True, "src_ok": src.GetValues() is src_vals and src.dimension == cfg["d0"] and src_vals == [1.0] * cfg["d0"]}
         return _fa_obs(c) | {"rejected": False}
+    if k == "curve_nested":
+        import numpy
+
+        rows, other = cfg["rows"], cfg["other"]
+        xs = [V["x%d" % i] for i in range(4)]
+        pts = [(xs[i % 4], xs[(i + 1) % 4]) for i in range(rows)]
+        nested = Array("length", pts, "m") if cfg["shape"] == "tuples" else Array(numpy.array([[float(i), float(i + 1)] for i in range(rows)]), "m")
+        flat_ok = Array([xs[i % 4] for i in range(rows)], "s")
+        flat_new = Array([xs[i % 4] for i in range(other)], "s")
+        try:
+            if cfg["via"] == "ctor":
+                c = Curve(nested, flat_new)
+            else:
+                c = Curve(nested, flat_ok) if "omain" in cfg["via"] else Curve(Array([xs[i % 4] for i in range(other)], "m"), flat_new)
+                new = flat_new if "omain" in cfg["via"] else nested
+                {"SetDomain": lambda: c.SetDomain(new), "SetImage": lambda: c.SetImage(new), "domain=": lambda: setattr(c, "domain", new), "image=": lambda: setattr(c, "image", new)}[cfg["via"]]()
+        except ValueError:
+            return {"rejected": True}
+        return {"rejected": False, "li": len(c.GetImage().GetValues()), "ld": len(c.GetDomain().GetValues())}
     if k in ("curve", "curve2", "curve_ctor"):
         if k == "curve_ctor":
             c = Curve(Array(_seq(V["n"]), "m"), Array(_seq(V["k"]), "s"))
@@ -290,6 +317,12 @@ def props(cfg, T, obs):
             return [("rejected only for a wrong length", L != cfg["d0"]), ("source unchanged after rejection", bool(obs["src_ok"]))]
         return [("len(values) == dimension >= 2", _inv(obs)), ("accepted only for the source's dimension", L == cfg["d0"]),
                 ("dimension kept", _iv(obs["dim"]) == cfg["d0"])]
+    if k == "curve_nested":
+        if isinstance(obs, Raised):
+            return [("a Curve step raises only ValueError", False)]
+        same = cfg["rows"] == cfg["other"]
+        return [("a Curve holding nested containers accepts a step exactly when the numbers of ROWS match", obs["rejected"] == (not same)),
+                ("image and domain have equal length", obs["rejected"] or obs["li"] == obs["ld"])]
     if k == "curve_ctor":
         if isinstance(obs, Raised):
             return [("ValueError", obs.isa(ValueError)), ("rejected only for different lengths", T["n"] != T["k"])]
